@@ -14,7 +14,7 @@ Definition event_free_op (o : op) : bool :=
 Definition op_pre (h : heap) (o : op) : Prop :=
   match o with
   | ONew p _ _ _ _ => findw h p <> None
-  | ORef w | OUnref w | OClose w | OSteal w _ | OBind w _ _ _ _ | OShow w | OHide w | OExpose w => findw h w <> None
+  | ORef w | OUnref w | OClose w | OSteal w _ | OBind w _ _ _ _ _ | OUnbind w _ | OGeom w | OShow w | OHide w | OExpose w => findw h w <> None
   | ORestack c w => is_restack c = true /\ exists cw, findw h w = Some cw /\ (w_parent cw = None \/ anc h w root)
   | OFocus w | OGetRoot w => anc h w root
   | OFlush w => w = root /\ findw h root <> None
@@ -40,7 +40,9 @@ Lemma run_op_S : forall V f o,
    | OFlush w => window_flush f w
    | OKey => b <- root_bound ;; if b then handle_key V f 1%positive ;;; ret tt else ret tt
    | OMouse t => b <- root_bound ;; if b then on_term_mouse V f t else ret tt
-   | OBind w k m r acts => upd w (fun c => set_hs c (w_hs c ++ [mkH k m r acts]))
+   | OBind w id k m r acts => upd w (fun c => set_hs c (w_hs c ++ [mkH id k m r acts]))
+   | OUnbind w id => upd w (fun c => set_hs c (filter (fun hd => negb (h_id hd =? id)) (w_hs c)))
+   | OGeom w => getw w ;;; ret tt
    | ONop => ret tt
    end).
 Proof. reflexivity. Qed.
@@ -125,11 +127,21 @@ Proof.
     destruct (window_flush f root h1); tauto.
   - (* OBind *)
     rewrite <- Fw1 in Hpre.
-    pose proof (upd_links_spec [] w (fun c => set_hs c (w_hs c ++ [mkH key mask ret actions])) h1 HI1 Hpre) as Hu.
-    assert (Hf : forall c, same_links c (set_hs c (w_hs c ++ [mkH key mask ret actions])) /\
-                           w_ref c <= w_ref (set_hs c (w_hs c ++ [mkH key mask ret actions]))).
+    pose proof (upd_links_spec [] w (fun c => set_hs c (w_hs c ++ [mkH id key mask ret actions])) h1 HI1 Hpre) as Hu.
+    assert (Hf : forall c, same_links c (set_hs c (w_hs c ++ [mkH id key mask ret actions])) /\
+                           w_ref c <= w_ref (set_hs c (w_hs c ++ [mkH id key mask ret actions]))).
     { intro c. split; [repeat split|cbn; lia]. }
     specialize (Hu Hf h1 eq_refl). destruct (upd w _ h1); tauto.
+  - (* OUnbind *)
+    rewrite <- Fw1 in Hpre.
+    pose proof (upd_links_spec [] w (fun c => set_hs c (filter (fun hd => negb (h_id hd =? id)) (w_hs c))) h1 HI1 Hpre) as Hu.
+    assert (Hf : forall c, same_links c (set_hs c (filter (fun hd => negb (h_id hd =? id)) (w_hs c))) /\
+                           w_ref c <= w_ref (set_hs c (filter (fun hd => negb (h_id hd =? id)) (w_hs c)))).
+    { intro c. split; [repeat split|cbn; lia]. }
+    specialize (Hu Hf h1 eq_refl). destruct (upd w _ h1); tauto.
+  - (* OGeom *)
+    rewrite <- Fw1 in Hpre. destruct (live_some h1 w Hpre) as [cw Hw].
+    unfold bind. rewrite (getw_run h1 w cw Hw). cbn. exact HI1.
   - (* ONop *)
     cbn. exact HI1.
 Qed.
@@ -345,7 +357,7 @@ Definition depth_fuel (h : heap) : nat := Pos.to_nat (nextw h).
 Definition op_preb (h : heap) (o : op) : bool :=
   match o with
   | ONew p _ _ _ _ => liveb h p
-  | ORef w | OUnref w | OClose w | OSteal w _ | OBind w _ _ _ _ | OShow w | OHide w | OExpose w => liveb h w
+  | ORef w | OUnref w | OClose w | OSteal w _ | OBind w _ _ _ _ _ | OUnbind w _ | OGeom w | OShow w | OHide w | OExpose w => liveb h w
   | ORestack c w =>
     is_restack c &&
     match PM.find w (wins h) with
